@@ -687,7 +687,7 @@ func doReplay(path, driver string) int {
 				return 1
 			}
 		}
-		fmt.Fprintln(realOut, "replay: 41 runs on identical inputs agree now")
+		fmt.Fprintf(realOut, "replay: 41 runs on identical inputs agree now\n all runs: %.3000s\n", first)
 		return 0
 	}
 	d, impl, model := r.disagrees(v.Op, v.Args)
